@@ -3,10 +3,11 @@ import Driver.Proto
 import Driver.Chemicals
 import Driver.IBM
 import Driver.Gen
+import Driver.Release
 open Driver
 
 def allHandlers : List (String × Handler) :=
-  chemHandlers ++ ibmHandlers ++ genHandlers
+  chemHandlers ++ ibmHandlers ++ genHandlers ++ releaseHandlers
 
 def table : Std.HashMap String Handler := Std.HashMap.ofList allHandlers
 
